@@ -93,9 +93,12 @@ type Outcome struct {
 	St   *State
 	Rets []Value
 	Kind OutKind
+	Fr   *Frame // the frame in which the return executed (local names of that path, for postconditions)
 }
 
 type Exec struct {
+	snapRefs []*Term // backing arrays that are read-only snapshots of arrays nested in structs
+	snapInit bool
 	c         *Ctx
 	prog      *ssa.Program
 	fset      *token.FileSet
@@ -594,14 +597,16 @@ func (x *Exec) runInstrs(fr *Frame, st *State, b *ssa.BasicBlock, start int) (ne
 			for _, r := range in.Results {
 				rets = append(rets, x.val(fr, r))
 			}
-			return nil, nil, []Outcome{{St: st, Rets: rets, Kind: OutReturn}}, true
+			return nil, nil, []Outcome{{St: st, Rets: rets, Kind: OutReturn, Fr: fr}}, true
 		case *ssa.Panic:
 			x.oblige(fr, st, "panic", x.src(fr.fn, in.Pos(), "panic"), in.Pos(), x.panicAllowed(fr, st))
 			return nil, nil, []Outcome{{St: st, Kind: OutPanic}}, true
 		case *ssa.RunDefers:
 			outs := x.runDefers(fr, st)
 			if len(outs) == 1 && outs[0].Kind == OutReturn {
-				st = outs[0].St
+				if outs[0].St != st {
+					*st = *outs[0].St // the caller (run) keeps this pointer across basic blocks
+				}
 				continue
 			}
 			// multiple outcomes: continue each
@@ -621,11 +626,19 @@ func (x *Exec) runInstrs(fr *Frame, st *State, b *ssa.BasicBlock, start int) (ne
 		case *ssa.Call:
 			base := st.pc
 			res := x.call(fr, st, in, &in.Call, in.Pos())
+			nres := len(res)
 			if len(res) > 1 {
 				res = x.mergeOutcomes(res, base)
 			}
+			if os.Getenv("VCHECK_DEBUG") != "" && nres > 1 {
+				fmt.Fprintf(os.Stderr, "  [call %s: %d outcomes, %d after merging]\n", in.Call.String(), nres, len(res))
+			}
 			if len(res) == 1 && res[0].Kind == OutReturn {
-				st = res[0].St
+				if res[0].St != st {
+					// the merged state replaces the contents of the state object the caller (run) keeps
+					// across basic blocks (assigning the local pointer alone lost it at the block's end)
+					*st = *res[0].St
+				}
 				fr.env[in] = x.packResults(in.Type(), res[0].Rets)
 				continue
 			}
@@ -776,6 +789,8 @@ func (x *Exec) loopEnter(fr *Frame, st *State, h *ssa.BasicBlock, ord int) {
 	for _, k := range sortedKeys(ws.ghost) {
 		if strings.HasPrefix(k, "call:") {
 			delete(st.calls, strings.TrimPrefix(k, "call:"))
+		} else if strings.HasPrefix(k, "ncalls:") || strings.HasPrefix(k, "nok:") {
+			st.ghost[k] = x.freshCounter(st)
 		} else if cur, ok := st.ghost[k]; ok {
 			st.ghost[k] = x.c.Fresh("ghost", cur.S)
 		} else if g := x.ghostInit(k); g != nil {
@@ -801,6 +816,14 @@ func (x *Exec) loopEnter(fr *Frame, st *State, h *ssa.BasicBlock, ord int) {
 		snap.measure = []*Term{x.toInt64(v)}
 	}
 	fr.loopSnap[h] = snap
+}
+
+// freshCounter: an unknown value of a ghost call counter. Counters count calls made during one execution of
+// the function: they are non-negative and far below 2^62 (no execution makes that many calls).
+func (x *Exec) freshCounter(st *State) *Term {
+	g := x.c.Fresh("ghost_ncalls", idxSort)
+	st.assume(And(BVCmp("bvsge", g, BVLit64(0, 64)), BVCmp("bvsle", g, BVLit64(1<<62, 64))))
+	return g
 }
 
 func (x *Exec) toInt64(v Value) *Term {
